@@ -26,14 +26,23 @@ def _rand(tier, seed, n_quick, n_thorough, prefix, **kw):
     return families.random_cfgs(seed * 7919 + 13, n_quick if tier == "quick" else n_thorough, prefix, **kw)
 
 
-def step_cases(fams, rand_kw=None, nq=250, nt=2500, rq=200, rt=3000):
+def step_cases(fams, rand_kw=None, nq=250, nt=2500, rq=200, rt=3000, full=True):
+    """Per family: a seeded sample is run with the phase hook recording every event (state and step
+    clauses, per-phase conformance); the WHOLE family is run without events (log clauses on the
+    final logs, whole-run conformance final = SimulateF(cfg))."""
     def cases(tier, seed):
         out = []
         for f in fams:
-            out += _fam(f, tier, nq, nt, seed)
+            out += _sim(_fam(f, tier, nq, nt, seed))
+            if full:
+                t = 1 if tier == "quick" else 2
+                allc = families.export_family(f, t)
+                if tier != "quick" and len(allc) > 40000:
+                    allc = families.sample(allc, 40000, seed + 1)
+                out += [{"kind": "simulate", "light": True, "cfg": dict(c, id=c["id"] + "~")} for c in allc]
         if rand_kw is not None:
-            out += _rand(tier, seed, rq, rt, "R", **rand_kw)
-        return _sim(out)
+            out += _sim(_rand(tier, seed, rq, rt, "R", **rand_kw))
+        return out
     return cases
 
 
@@ -444,6 +453,17 @@ def c20_cases(tier, seed):
     return out
 
 
+def c05_maxtime_cases(tier, seed):
+    """max_time at, just below and just above the makespan: status must stay truthful."""
+    out = []
+    for cfg in _pool(tier, seed, ["deps", "abs"], 60, 600, dict(components=False, facilities=False), 40, 400, prefix="M"):
+        ops = []
+        for k in range(0, 9 if tier == "quick" else 16):
+            ops += [{"op": "rebuild"}, {"op": "simulate", "opts": {"maxTime": k}, "light": True}]
+        out.append(_hist(cfg, "c05max", ops))
+    return out
+
+
 PLANS["C20"] = dict(cases=c20_cases)
 PLANS["C19"] = dict(cases=report_cases())
 PLANS["C09"] = dict(cases=c09_cases, l1=l1(dict(family="deps", invariants=["Inv_C09"])))
@@ -451,6 +471,7 @@ PLANS["C15"] = dict(cases=c15_cases, l1=l1(dict(family="deps", invariants=["Inv_
 PLANS["C17"] = dict(cases=c17_cases)
 PLANS["C18"] = dict(cases=c18_cases)
 PLANS["C16"] = dict(cases=c16_cases)
+PLANS["C05"]["cases"] = both(PLANS["C05"]["cases"], c05_maxtime_cases)
 PLANS["C08"]["cases"] = both(PLANS["C08"]["cases"], c08_hist_cases, unit2_cases())
 PLANS["C10"]["cases"] = both(PLANS["C10"]["cases"], c10_hist_cases)
 UNREGISTERED |= set()
